@@ -285,6 +285,13 @@ def named_mechanism(cls, key, small, mode, detail=None):
         return "REJECT/NamedExpr/unparenthesised-walrus-in-match-subject"
     if cls == "REJECT" and surface and isinstance(root, ast.JoinedStr) and re.search(r"(?i)\b(rf|fr)('|\")", text) and re.search(r"\\['\"]", text):
         return "REJECT/JoinedStr/raw-f-string-containing-a-backslash-quote"
+    if cls == "REJECT" and "JoinedStr" in kinds:
+        segs = [ast.get_source_segment(small, n) or "" for n in nodes if isinstance(n, ast.JoinedStr) and n.lineno != n.end_lineno]
+        segs = [g for g in segs if not re.match(r"(?i)[rfbu]*('''|\"\"\")", g)]
+        if segs and "EOL while scanning f-string" in str(detail) and any("\\\n" in g for g in segs):
+            return "REJECT/JoinedStr/backslash-newline-inside-the-text-of-a-single-quoted-f-string"
+        if segs and all("\\\n" not in g for g in segs):
+            return "REJECT/JoinedStr/newline-inside-a-replacement-field-of-a-single-quoted-f-string"
     if cls == "REJECT" and any(ord(c) > 127 for c in text) and kinds <= {"Module", "Expr", "Name", "Load", "Store", "Assign", "Constant", "Attribute"}:
         names = [n.id for n in nodes if isinstance(n, ast.Name)] + [n.attr for n in nodes if isinstance(n, ast.Attribute)]
         if any(not re.fullmatch(r"\w+", nm) for nm in names):
@@ -367,6 +374,21 @@ def perturbations(s, rng):
     if sp:
         i = rng.choice(sp)
         yield "backslash-nl", s[:i] + " \\\n  " + s[i + 1:]
+        # the continued text starts in column 0 (an operator or keyword as the first character of a physical line)
+        i = rng.choice(sp)
+        yield "backslash-nl-col0", s[:i] + " \\\n" + s[i + 1:]
+        kw = [j for j in sp if s[j + 1:].startswith(("and ", "or ", "not ", "in ", "is ", "if ", "else ", "for ", "lambda", "await ", "+", "-", "*", "/", "<", ">", "=", "|", "&", "^", "%", "@", ".", ","))]
+        if kw:
+            i = rng.choice(kw)
+            yield "backslash-nl-col0-operator-first", s[:i] + " \\\n" + s[i + 1:]
+        inside = [j for j in sp if sum(s.count(c, 0, j) for c in "([{") > sum(s.count(c, 0, j) for c in ")]}")]
+        if inside:
+            i = rng.choice(inside)
+            yield "bracket-nl-col0", s[:i] + "\n" + s[i + 1:]
+            kwi = [j for j in inside if j in kw]
+            if kwi:
+                i = rng.choice(kwi)
+                yield "bracket-nl-col0-operator-first", s[:i] + "\n" + s[i + 1:]
     lines = s.split("\n")
     if len(lines) > 1:
         i = rng.randrange(len(lines) - 1)
@@ -431,7 +453,7 @@ def directed_cases():
         "{a, *b}\n", "{*a}\n", "{*a, *b}\n", "[a, *b]\n", "(a, *b)\n", "{**a, 'k': 1}\n",
         # witnesses of findings first seen by the thorough tier
         "(x or[])\n", "x and(y)\n", "x or-1\n", "type x=x and-x\n", "(x[x:=0])\n", "x[(y:=0)]\n", "match x := x,:\n    case y as v,:\n        pass\n",
-        "(rf'a\\'b')\n", "\u05e2\u05b4\u05d1 = 1\n", "y = [(x for o in x)]\n", "match x:\n    case x([[{}]]):\n        0\n",
+        "x = f'a \\\nb'\n", "(f'{x\n- x}')\n", "(rf'a\\'b')\n", "\u05e2\u05b4\u05d1 = 1\n", "y = [(x for o in x)]\n", "match x:\n    case x([[{}]]):\n        0\n",
         "def f(a, *args: T, **kw: T): pass\n", "def f(*args: T): pass\n", "def f(**kw: T): pass\n", "def f(*, a: T = 1): pass\n",
         "def f(a, /, b, *, c): pass\n", "def f(a=1, /, b=2, *c, d, e=3, **f) -> int: pass\n", "lambda a, /, b=1, *c, d, **e: 0\n",
         "with (a as b, c as d): pass\n", "with (a as b): pass\n", "with (a, b): pass\n", "with (a, b) as c: pass\n", "with a as b, c as d: pass\n",
@@ -446,7 +468,7 @@ def directed_cases():
         "not a\n", "not not a\n", "a and b or c and not d\n", "a if b else c if d else e\n", "-x ** -y\n", "~x\n", "+x\n", "a @ b\n", "a @= b\n", "a //= b\n", "a **= b\n", "a >>= b\n", "a <<= b\n", "a ^= b\n", "a |= b\n", "a &= b\n", "a %= b\n",
         "a < b <= c == d != e > f >= g is h is not i in j not in k\n",
         "a is not b\n", "a not in b\n", "x = *a, b\n", "return\n" if False else "def f(): return *a, b\n",
-        "try:\n    pass\nexcept* E as e:\n    pass\n", "try:\n    pass\nexcept (A, B) as e:\n    pass\nelse:\n    pass\nfinally:\n    pass\n", "try:\n    pass\nexcept:\n    pass\n",
+        "try:\n    pass\nexcept* E as e:\n    pass\n", "try:\n    a\nexcept* E:\n    b\nelse:\n    c\n", "try:\n    a\nexcept* E:\n    b\nelse:\n    c\nfinally:\n    d\n", "x = (a\nand b)\n", "y = [a\nor b, c\nif d else e]\n", "z = a \\\nor b\n", "try:\n    pass\nexcept (A, B) as e:\n    pass\nelse:\n    pass\nfinally:\n    pass\n", "try:\n    pass\nexcept:\n    pass\n",
         "match x:\n    case 1 | 2: pass\n    case [a, *b]: pass\n    case {'k': v, **r}: pass\n    case C(a, b=c): pass\n    case (1, 2) as t if t: pass\n    case None: pass\n    case -1: pass\n    case 1+2j: pass\n    case a.b: pass\n    case _: pass\n",
         "match = 1\n", "case = 2\n", "type = 3\n", "match(x)\n", "match[x]\n", "print(match, case)\n", "type X = int\n", "type X[T] = list[T]\n", "type X[T: int, *Ts, **P] = T\n",
         "def f[T](x: T) -> T: pass\n", "class C[T](B): pass\n", "class C[T: (int, str)]: pass\n", "def f[*Ts, **P](): pass\n",
